@@ -61,8 +61,8 @@ namespace Props.C09
 
 /-- callees whose error result may be ignored, with the reason -/
 def infallible : List String :=
-  [ "buf.Write", "buf.WriteByte", "buf.WriteString"   -- bytes.Buffer: documented to return nil
-  , "crc.Write"                                        -- hash.Hash.Write never returns an error
+  [ "(bytes.Buffer).Write", "(bytes.Buffer).WriteByte", "(bytes.Buffer).WriteString"   -- documented to return nil
+  , "(hash.Hash).Write", "(hash.Hash32).Write", "(hash.Hash64).Write"                    -- hash.Hash.Write never returns an error
   , "fmt.Fprintf"                                      -- into a bytes.Buffer (String methods)
   , "d.m.Write"                                        -- match finder: (len(p), nil) always
   , "d.buf.Read" ]                                     -- ring buffer Peek: err is always nil
